@@ -217,7 +217,7 @@ func c19Check(env *core.Env, cc core.Case) core.Verdict {
 
 func faultKind(stderr string) string {
 	for _, l := range strings.Split(stderr, "\n") {
-		if strings.Contains(l, "runtime error") || strings.Contains(l, "fatal error") {
+		if strings.Contains(l, "runtime error") || strings.Contains(l, "fatal error") || strings.HasPrefix(strings.TrimSpace(l), "panic:") {
 			l = strings.TrimSpace(l)
 			if i := strings.Index(l, "runtime error"); i >= 0 {
 				l = l[i:]
@@ -244,7 +244,7 @@ func init() {
 		ID:    "C19",
 		Level: "exploration",
 		Rule: "token-level fuzzing: byte strings up to 4 KiB assembled from ~120 tokens (directive fragments, block and marker keywords, regex metacharacters, escapes including \\( \\) ?i: ?s: (?-s: (?U), braces and oversized repeats, quotes, control, non-ASCII and invalid UTF-8 bytes, CR) and ~80 seed fragments (escaped parentheses in front of flag-like text, empty and unbalanced constructs, self-referential definitions, partial groups in prefix/suffix) are fed to the built CLI on stdin, through an include file (include, include-except in both roles, suffix replacement) and as an assembly file through generate, compare, format --check, update and format; 14 directory shapes that are not a CRS checkout (regex-assembly being a file, a dangling or self-referential link; include directory a file; an include or assembly file being a directory or a link to itself; configuration a directory; -d missing, a file, empty) get three harmless programs each. " +
-			"Oracle: exit classification at the process boundary — no 'runtime error', 'fatal error', signal, race or checkptr report on stderr, and termination within the watchdog (20 s, re-run with 120 s before it is called a hang); exit 0, exit 1 and zerolog's deliberate panic diagnostics (exit 2, 'panic:' without runtime error) are all acceptable. The thorough tier repeats a tenth of the inputs on a -race build. Every input is non-trivial; distinct by content hash.",
+			"Oracle: exit classification at the process boundary — no 'runtime error', 'fatal error', signal, race or checkptr report on stderr, and termination within the watchdog (20 s, re-run with 120 s before it is called a hang); exit 0, exit 1 and zerolog's deliberate panic diagnostics (exit 2, 'panic:' raised from zerolog's frames) are all acceptable; any other panic (a library's explicit panic such as strings.Repeat with a negative count) is a fault. The thorough tier repeats a tenth of the inputs on a -race build. Every input is non-trivial; distinct by content hash.",
 		Cases: func(env *core.Env, rng *rand.Rand) []core.Case {
 			n := env.N(5000, 150000)
 			var cs []core.Case
